@@ -30,7 +30,7 @@ def _names_in(expr):
     return out, names
 
 
-def extract(spec, text):
+def extract(spec, text, allow_partition=False):
     """-> (L, shape, views) as Python lists for a single plain sum-of-products Einsum."""
     if len(spec.structs) != 1:
         raise NotANest("cascade")
@@ -46,6 +46,7 @@ def extract(spec, text):
     for a in st["out_idx"]:
         if len(a) != 1 or a[0][0] != 1:
             raise NotANest("index math")
+    merges = []
     term_tensors = []
     term_scalars = []
     owner = {}
@@ -63,40 +64,123 @@ def extract(spec, text):
                 ts.append(f[1])
         term_tensors.append(ts)
     body = ast.parse(text).body
+    out_name = st["out"]
     ranks_of = {spec.var_name(t): list(spec.order(t)) for t in spec.inputs()}
     tensor_of = {spec.var_name(t): t for t in spec.inputs()}
+    splits_of = {v: [] for v in ranks_of}     # var -> [(parent rank, hi, lo, step text)] ; placeholders until setRankIds
     fiber = {}         # fiber var -> tensor
     iter_ranks = {}    # tensor -> rank order as iterated
+    tensor_splits = {}
     loops = None
+    out_vars = {}      # variables holding the output (created / footer temporaries) -> rank list
+    out_created = None
+    out_final = None
+
+    def kwargs(call):
+        return {k.arg: k.value for k in call.keywords}
+
+    def rank_list(node):
+        if not isinstance(node, ast.List) or not all(isinstance(e, ast.Constant) and isinstance(e.value, str) for e in node.elts):
+            raise NotANest("rank_ids")
+        return [e.value for e in node.elts]
+
     for s in body:
-        if isinstance(s, ast.Assign) and isinstance(s.targets[0], ast.Name) and isinstance(s.value, ast.Call) and \
-                isinstance(s.value.func, ast.Attribute) and isinstance(s.value.func.value, ast.Name):
-            recv, meth, tgt = s.value.func.value.id, s.value.func.attr, s.targets[0].id
-            if meth == "swizzleRanks" and recv in ranks_of:
-                kw = {k.arg: k.value for k in s.value.keywords}
-                ranks_of[tgt] = [e.value for e in kw["rank_ids"].elts]
-                tensor_of[tgt] = tensor_of[recv]
-            elif meth == "getRoot" and recv in ranks_of:
-                fiber[tgt] = tensor_of[recv]
-                iter_ranks[tensor_of[recv]] = list(ranks_of[recv])
-            elif meth == "getRoot":
-                pass   # the output
-            elif meth == "swizzleRanks" and loops is not None:
-                pass   # footer swizzle of the output
-            else:
-                raise NotANest("header statement " + meth)
-        elif isinstance(s, ast.Assign) and isinstance(s.value, ast.Call) and isinstance(s.value.func, ast.Name) and s.value.func.id == "Tensor":
-            pass       # output creation
-        elif isinstance(s, ast.For):
+        if isinstance(s, ast.For):
             if loops is not None:
                 raise NotANest("two loop nests")
             loops = s
-        elif isinstance(s, ast.Assign) and isinstance(s.value, ast.Name):
-            pass       # footer aliases tmp = Z
-        elif isinstance(s, ast.Assign) and isinstance(s.value, ast.Call) and isinstance(s.value.func, ast.Attribute) and s.value.func.attr == "swizzleRanks":
-            pass       # footer swizzle of the output
-        else:
+            continue
+        # NAME.setRankIds(rank_ids=[...])
+        if isinstance(s, ast.Expr) and isinstance(s.value, ast.Call) and isinstance(s.value.func, ast.Attribute) \
+                and s.value.func.attr == "setRankIds" and isinstance(s.value.func.value, ast.Name):
+            if not allow_partition:
+                raise NotANest("setRankIds")
+            recv = s.value.func.value.id
+            new = rank_list(kwargs(s.value)["rank_ids"])
+            if recv in ranks_of:
+                old = ranks_of[recv]
+                if len(old) != len(new):
+                    raise NotANest("setRankIds changes the number of ranks")
+                ren = {}
+                for o, n in zip(old, new):
+                    if o.endswith(("^", "_")) and o[:-1] != "":
+                        ren[o] = n
+                    elif o != n:
+                        raise NotANest("setRankIds renames an existing rank %s -> %s" % (o, n))
+                ranks_of[recv] = new
+                splits_of[recv] = [(ren.get(a, a), ren.get(b, b), ren.get(c, c), d) for a, b, c, d in splits_of[recv]]
+            elif recv in out_vars:
+                if len(out_vars[recv]) != len(new):
+                    raise NotANest("setRankIds on the output changes the number of ranks")
+                out_vars[recv] = new
+            else:
+                raise NotANest("setRankIds on unknown variable")
+            continue
+        if not (isinstance(s, ast.Assign) and len(s.targets) == 1 and isinstance(s.targets[0], ast.Name)):
             raise NotANest("statement " + ast.dump(s)[:60])
+        tgt, v = s.targets[0].id, s.value
+        if isinstance(v, ast.Name):                                   # alias
+            if v.id in ranks_of:
+                ranks_of[tgt], tensor_of[tgt], splits_of[tgt] = list(ranks_of[v.id]), tensor_of[v.id], list(splits_of[v.id])
+            elif v.id in out_vars:
+                out_vars[tgt] = list(out_vars[v.id])
+                out_final = tgt
+            else:
+                raise NotANest("alias of unknown variable " + v.id)
+            continue
+        if isinstance(v, ast.Call) and isinstance(v.func, ast.Name) and v.func.id == "Tensor":
+            kw = kwargs(v)
+            if loops is not None or out_created is not None or kw["name"].value != out_name:
+                raise NotANest("Tensor()")
+            out_created = rank_list(kw["rank_ids"])
+            out_vars[tgt] = list(out_created)
+            continue
+        if not (isinstance(v, ast.Call) and isinstance(v.func, ast.Attribute) and isinstance(v.func.value, ast.Name)):
+            raise NotANest("statement " + ast.dump(s)[:60])
+        recv, meth = v.func.value.id, v.func.attr
+        if meth == "swizzleRanks" and recv in ranks_of and loops is None:
+            new = rank_list(kwargs(v)["rank_ids"])
+            if sorted(new) != sorted(ranks_of[recv]):
+                raise NotANest("swizzle is not a permutation")
+            ranks_of[tgt], tensor_of[tgt], splits_of[tgt] = new, tensor_of[recv], list(splits_of[recv])
+        elif meth == "getRoot" and recv in ranks_of and loops is None:
+            if any(r.endswith(("^", "_")) for r in ranks_of[recv]):
+                raise NotANest("unnamed partition level")
+            fiber[tgt] = tensor_of[recv]
+            iter_ranks[tensor_of[recv]] = list(ranks_of[recv])
+            tensor_splits[tensor_of[recv]] = list(splits_of[recv])
+        elif meth == "getRoot" and recv in out_vars and loops is None:
+            pass
+        elif meth == "splitUniform" and recv in ranks_of and loops is None and allow_partition:
+            kw = kwargs(v)
+            if set(kw) != {"depth"} or len(v.args) != 1 or not isinstance(kw["depth"], ast.Constant):
+                raise NotANest("splitUniform arguments (halo?)")
+            d = kw["depth"].value
+            rs = list(ranks_of[recv])
+            if not (0 <= d < len(rs)):
+                raise NotANest("split depth")
+            parent = rs[d]
+            hi, lo = parent + "^", parent + "_"
+            ranks_of[tgt] = rs[:d] + [hi, lo] + rs[d + 1:]
+            tensor_of[tgt] = tensor_of[recv]
+            splits_of[tgt] = splits_of[recv] + [(parent, hi, lo, ast.unparse(v.args[0]))]
+        elif meth == "swizzleRanks" and recv in out_vars and loops is not None:
+            new = rank_list(kwargs(v)["rank_ids"])
+            if sorted(new) != sorted(out_vars[recv]):
+                raise NotANest("output swizzle is not a permutation")
+            out_vars[tgt] = new
+        elif meth == "mergeRanks" and recv in out_vars and loops is not None and allow_partition:
+            kw = kwargs(v)
+            if set(kw) != {"depth", "levels", "coord_style"} or kw["coord_style"].value != "absolute":
+                raise NotANest("mergeRanks arguments")
+            d, k = kw["depth"].value, kw["levels"].value
+            rs = out_vars[recv]
+            if not (0 <= d and d + k < len(rs) and k >= 1):
+                raise NotANest("merge range")
+            merges.append(list(rs[d:d + k + 1]))
+            out_vars[tgt] = rs[:d] + ["+".join(rs[d:d + k + 1])] + rs[d + k + 1:]
+        else:
+            raise NotANest("statement %s.%s" % (recv, meth))
     for ts in term_tensors:
         for t in ts:
             if t not in iter_ranks:
@@ -145,7 +229,50 @@ def extract(spec, text):
     shape = [[iter_ranks[t] for t in ts] + [[] for _ in sc] for ts, sc in zip(term_tensors, term_scalars)]
     acc, lv = _leaf_view(leaf_stmt, term_tensors, term_scalars, sels)
     out_ranks = [a[0][1].upper() for a in st["out_idx"]]
-    return L, shape, views, acc, lv, out_ranks, sels
+    if not allow_partition:
+        return L, shape, views, acc, lv, out_ranks, sels
+    part = _partition_view(spec, st, term_tensors, iter_ranks, tensor_splits, out_created, out_vars, out_final, merges)
+    # the update statement writes the output as created: `<<=` needs every loop rank among ITS ranks
+    return L, shape, views, acc, lv, list(out_created), sels, part
+
+
+def _partition_view(spec, st, term_tensors, iter_ranks, tensor_splits, out_created, out_vars, out_final, merges):
+    """Static side conditions of a shape-partitioned program (hypotheses of C02_partitioned_nest_sound_partial and of the
+    runtime laws split_uniform_merge1): every tensor holding a partitioned rank is split on it, with the same step text and
+    the same level names; the output is created with level names, and the footer merges, for every partitioned output
+    rank, exactly its levels from outermost to innermost (after a swizzle making them adjacent) back into the rank."""
+    split = {}        # parent -> (hi, lo, step text)
+    for t, recs in tensor_splits.items():
+        for parent, hi, lo, step in recs:
+            if parent in split and split[parent] != (hi, lo, step):
+                raise NotANest("rank %s is split differently in two tensors: %s vs %s" % (parent, split[parent], (hi, lo, step)))
+            split[parent] = (hi, lo, step)
+    for t, rs in iter_ranks.items():
+        for r in rs:
+            if r in split:
+                raise NotANest("tensor %s holds the partitioned rank %s unsplit" % (t, r))
+
+    def chain(r):
+        if r not in split:
+            return [r]
+        hi, lo, _ = split[r]
+        return chain(hi) + chain(lo)      # either half may itself be split again (stacks; sizes need not decrease)
+    decl_out = list(spec.order(st["out"]))
+    expect_created = sorted(x for r in decl_out for x in chain(r))
+    if out_created is None or sorted(out_created) != expect_created:
+        raise NotANest("output created with ranks %s, expected the levels %s" % (out_created, expect_created))
+    need = [chain(r) for r in decl_out if r in split]
+    if sorted(map(tuple, merges)) != sorted(map(tuple, need)):
+        raise NotANest("footer merges %s, expected %s" % (merges, need))
+    if need:
+        if out_final is None:
+            raise NotANest("no final output variable")
+        final = out_vars[out_final]
+        if final != decl_out:
+            raise NotANest("final output ranks %s, declared %s" % (final, decl_out))
+        if out_final != spec.var_name(st["out"]):
+            raise NotANest("final output variable %s" % out_final)
+    return {"splits": {k: list(v) for k, v in split.items()}, "merges": merges}
 
 
 def _leaf_view(stmt, term_tensors, term_scalars, sels):
